@@ -98,6 +98,11 @@ func VerifC12() {
 				ctx.SetEntry(base.NewSentinelEntry(ctx, ctx.Resource, nil))
 				rs[i].passed = cb.TryPass(ctx)
 				rs[i].clk = rt.LastClock()
+				if !rs[i].passed && rt.Param("EXIT") != 0 {
+					// what the slot and api.Entry do with a rejected request: mark it blocked and exit it at once
+					ctx.RuleCheckResult = base.NewTokenResultBlocked(base.BlockTypeCircuitBreaking)
+					ctx.Entry().Exit()
+				}
 			} else if failed {
 				cb.OnRequestComplete(0, boom)
 			} else {
@@ -148,6 +153,10 @@ func VerifC12() {
 		}
 	case 1:
 		rt.Assert(probes <= 1, "each passage to half-open admits exactly one probe until it completes")
+		if probes == 1 {
+			rt.Reach("c12.probe-in-flight")
+			rt.Assert(sf == HalfOpen && lis.n == 1, "while the admitted probe is in flight the breaker stays half-open; rejected callers change nothing and report nothing")
+		}
 		for i := 0; i < n; i++ {
 			if rs[i].passed {
 				rt.Assert(rs[i].clk >= deadline, "while open no request is admitted before the retry deadline")
